@@ -72,3 +72,15 @@ Print Assumptions C05_txids_refuted_before_fix.
 (* the repaired model rejects both schedules: the second writer is not enabled at [PAppendEnter] *)
 Example C05_fixed_rejects : run init sched_ids = None /\ run init sched_txids = None.
 Proof. split; vm_compute; reflexivity. Qed.
+
+(* ---- graceful shutdown ([AClose] / [ACloseOk], Commander.Close()) --------------------------------------------------
+   [reachable] now also contains closes at every point: [AClose] (nothing inside the store call, or its write fails:
+   state-wise a crash) and [ACloseOk] (the batch inside the store call is written, then the generation ends:
+   [APersistOk] followed by [ACrash]); all theorems above hold over these schedules as well, unchanged.
+   The next commander starts from the disk and from nothing else: after either close the volatile head of the chain
+   and the last transaction id are those read from the persisted log (the ids the dropped queue had consumed are
+   handed out again), and that log -- with the batch the close may have completed -- is a gap-free chain. *)
+Theorem C05_close_restarts_from_disk : forall s a s', a = AClose \/ a = ACloseOk -> reachable s -> step s a = Some s' ->
+  v_last s' = last_entry (persisted s') /\ v_lasttx s' = last_txid (persisted s') /\ chain_ok (persisted s').
+Proof. exact close_restarts_from_disk. Qed.
+Print Assumptions C05_close_restarts_from_disk.
